@@ -432,6 +432,33 @@ def rule_state(ctx):
     ctx.units["C10.defaults_examined"] = shared_defaults(ctx, "C10.state", ["yowsup/layers/protocol_messages/", "yowsup/layers/protocol_media/", "yowsup/layers/axolotl/layer_send.py", "yowsup/layers/axolotl/layer_receive.py"])
 
 
+def rule_forward(ctx):
+    """forwarding a message yields an independent entity: forward() deep-copies (the copy shares no attribute object with
+    the original, so editing one does not change what the other serialises)"""
+    repo = ctx.repo
+    rel = "yowsup/layers/protocol_messages/protocolentities/message.py"
+    cls = repo.cls(rel, "MessageProtocolEntity")
+    fn = cls.methods.get("forward")
+    w = where(rel, "MessageProtocolEntity.forward", getattr(fn, "lineno", None))
+    if fn is None:
+        ctx.undecided("C10.ser", w, "forward", "method vanished")
+        return
+    m = repo.module(rel)
+    copies = []
+    for c in ast.walk(fn):
+        if isinstance(c, ast.Call) and c.args and isinstance(c.args[0], ast.Name) and c.args[0].id == "self":
+            name = unparse(c.func)
+            r = repo.resolve_name(m, name.split(".")[0])
+            target = name.split(".")[-1]
+            if r and r[0] in ("ext", "module") and "copy" in (str(r[1]) + name):
+                # `from copy import deepcopy` / `import copy; copy.deepcopy`
+                imported = str(r[1]).split(".")[-1] if r[0] == "ext" else target
+                copies.append(imported if "." not in name else target)
+    ctx.check("C10.ser", copies == ["deepcopy"], w, "forward() copies with %s" % (copies or "?"),
+              "forward() must deep-copy the entity: with %s the forwarded entity shares its attribute objects (caption, url, mentions, thumbnails) with the original, and editing one changes what the other puts on the wire" % (copies or "no copy"),
+              "deepcopy(self)")
+
+
 def rule_acc(ctx):
     repo = ctx.repo
     n = 0
@@ -497,6 +524,7 @@ def run(ctx):
     ctx.guarded("C10.bij_desc_has", rule_bij_desc_has, ctx, cv)
     ctx.guarded("C10.top", rule_top, ctx, cv)
     ctx.guarded("C10.ser", rule_ser, ctx)
+    ctx.guarded("C10.ser", rule_forward, ctx)
     ctx.guarded("C10.acc", rule_acc, ctx)
     ctx.guarded("C10.state", rule_state, ctx)
     # the serialised payload is padded before and unpadded after the session cipher: exact unpadding (C03.map), adopted
